@@ -370,7 +370,7 @@ def r1_3(ctx):
             okdefs = True
             if isinstance(it, ast.Name):
                 lnode = [n for n in g.nodes_for(lp) if g.nodes[n].kind == "iter"]
-                ctx.require(lnode, "expunge loop CFG node missing")
+                ctx.require(lnode, "expunge loop CFG node missing", anchor=True)
                 defs = reaching_defs(g, lnode[0], it.id)
                 ctx.paths_explored += len(defs)
                 ctx.require(defs, f"no reaching definition of {it.id}")
@@ -463,13 +463,13 @@ def r1_4(ctx):
 
 
 def run(ctx):
-    r1_1(ctx)
-    r1_2(ctx)
-    r1_3(ctx)
-    r1_4(ctx)
+    ctx.do(r1_1)
+    ctx.do(r1_2)
+    ctx.do(r1_3)
+    ctx.do(r1_4)
     # shared necessary conditions decided by sibling modules (reported under this property too)
     from . import c03, c10
-    c03.r3_1_2(ctx)
-    c03.r3_5(ctx)
-    c10.r10_3(ctx)
-    c10.r10_1(ctx)
+    ctx.do(c03.r3_1_2)
+    ctx.do(c03.r3_5)
+    ctx.do(c10.r10_3)
+    ctx.do(c10.r10_1)
